@@ -49,7 +49,8 @@ def cr_case(draw, tier="quick"):
             "m": draw(Z.params(9)), "order": draw(st.sampled_from(sorted(ORDERS))), "transform": draw(st.booleans()),
             "coll": draw(st.sampled_from([0, 0, 0, 2, 2, "8x8", "2x5x7", "70", "1x64"])),
             "ipars": [[draw(st.integers(-2, 2)), draw(st.integers(-2, 2))] for _ in range(4)] if draw(st.sampled_from([False, False, True])) else None,
-            "pscale": [draw(st.integers(0, 6)) for _ in range(4)]}
+            "pscale": [draw(st.integers(0, 6)) for _ in range(4)],
+            "rep": draw(st.sampled_from([None, None, None, None, [0, 1], [2, 3], [0, 2], [1, 3], [0, 3], [1, 2]]))}
 
 
 PLANE_FACTORS = [1.0, 1.0, 1000 / 3, 700.7, -1234.5, 0.1, 97.3]
@@ -72,7 +73,14 @@ def build_config(c):
         if len(ip) != 4 or any(len(x) != 2 for x in ip):
             raise Skip("malformed")
         pars = [[X.CQ(a, x[0]), X.CQ(b, x[1])] for (a, b), x in zip(pars, ip)]
-    if len(pars) != 4 or any(br(pars[i], pars[j]) == 0 for i in range(4) for j in range(i)) or any(not (a or b) for a, b in pars):
+    rep = c.get("rep")
+    if rep is not None:
+        # two of the four elements coincide: the cross ratio is 1 (a = b, c = d), 0 (a = c, b = d) or infinite (a = d, b = c)
+        if form not in ("points1", "points2", "points3", "lines2", "from_point2") or len(rep) != 2 or not 0 <= rep[0] < rep[1] <= 3:
+            raise Skip("no coincidences for this form")
+        pars = list(pars)
+        pars[rep[1]] = pars[rep[0]]
+    if len(pars) != 4 or any(br(pars[i], pars[j]) == 0 for i in range(4) for j in range(i) if [j, i] != rep) or any(not (a or b) for a, b in pars):
         raise Skip("parameters not pairwise different")
     pts = [[s * a + t * b for a, b in zip(A, B)] for s, t in pars]
     cplx = any(isinstance(x, X.CQ) and x.im != 0 for p in pts for x in p)
@@ -166,7 +174,8 @@ def run_cr(c):
     ck.check(np.shape(r) == shape, site + ":shape", (np.shape(r), shape))
     if len(vals) > 2:
         # the same four objects at every position
-        ck.check(np.allclose(vals, vals[0], rtol=1e-6, atol=1e-9, equal_nan=True), site + ":same-value-at-every-position", C.short(vals.tolist()))
+        same = np.allclose(vals, vals[0], rtol=1e-6, atol=1e-9, equal_nan=True) if np.all(np.isfinite(vals)) else all(C.p1_eq(complex(x), complex(vals[0]), 1e-6) for x in vals)
+        ck.check(same, site + ":same-value-at-every-position", C.short(vals.tolist()))
         vals = vals[:1]
     for v in vals:
         ck.check(C.p1_eq(complex(v), (X.to_complex(num), X.to_complex(den)), 1e-6), site + ":value", (complex(v), (str(num), str(den)), c["order"]))
@@ -208,6 +217,10 @@ def cr_labels(c):
         out.append("viewpoints-finite-and-at-infinity")
     if c.get("ipars") and c["form"] in ("points1", "points2", "points3", "from_point2") and any(x[0] or x[1] for x in c["ipars"]):
         out.append("complex-parameters")
+    if c.get("rep") and c["form"] in ("points1", "points2", "points3", "lines2", "from_point2"):
+        # the positions are those after the argument order has been applied
+        pos = sorted(ORDERS[c["order"]].index(k) for k in c["rep"])
+        out.append("coincident-arguments:" + {(0, 1): "one", (2, 3): "one", (0, 2): "zero", (1, 3): "zero", (0, 3): "infinite", (1, 2): "infinite"}[tuple(pos)])
     if c["form"] == "planes3" and not c["coll"] and not c["transform"] and sum(1 for k in (c.get("pscale") or []) if k >= 2 and k != 5) >= 3:
         out.append("planes3:large-non-integer-coefficients")
     return out
@@ -339,7 +352,7 @@ LAWS = [
     Law("crossratio", lambda tier: cr_case(tier), run_cr, cr_nontrivial, cr_labels, {"quick": 3000, "thorough": 60000},
         "closed-form value for every form (points 1D/2D/3D, concurrent lines 2D/3D, from_point, coaxial planes), argument orders "
         "abcd/badc/cdab/abdc/acbd (the symmetry relations), invariance under a projective map", shard=400,
-        mandatory=("special-vertex", "endpoint-parameter", "transformed", "lines2", "planes3", "points1", "complex-parameters", "collection>=64-several-axes", "viewpoints-finite-and-at-infinity", "planes3:large-non-integer-coefficients")),
+        mandatory=("special-vertex", "endpoint-parameter", "transformed", "lines2", "planes3", "points1", "complex-parameters", "collection>=64-several-axes", "viewpoints-finite-and-at-infinity", "planes3:large-non-integer-coefficients", "coincident-arguments:infinite", "coincident-arguments:zero", "coincident-arguments:one")),
     Law("crossratio_clustered_1d", lambda tier: cluster_case(tier), run_cluster, lambda c: abs(c["N"]) >= 1000, lambda c: [f"N={c['N']}"], {"quick": 400, "thorough": 5000},
         "four integer points N+o_i of P^1 (|N| up to 1e6, exact determinants): value depends on the offsets only", shard=400),
     Law("harmonic_set", lambda tier: hs_case(tier), run_hs, lambda c: True, lambda c: [f"d{c['d']}", "coll" if c["coll"] else "single"] + (["big-integers"] if c.get("bigint") else []),
